@@ -695,3 +695,9 @@ package secp256k1
 //@   apply ac@y: aff_coords(val(x), val(y))
 //@   ensures v.isValid && result == v && abs(v) == h2c_map(fp(os2ip(src)))
 //@   modifies *v
+//@
+//@ func NewScalar
+//@   props C02 C18
+//@   ct
+//@   ensures val(result) == 0
+//@   fresh result
